@@ -31,6 +31,17 @@ package corr
 //	                  (padding-only), 1, payload-1 —, at unchanged length.  Interceptors parse the header only;
 //	                  whatever follows it is payload to them.
 //
+// Two further general tools live here:
+//
+//   - `failclose`, a neighbour whose Close returns an error (ErrAmbClose; packetdump with a failing log writer, the cc
+//     interceptor with an estimator whose Close fails, an application interceptor): whatever its position, every
+//     other member of the chain must still be closed — its goroutines end, its containers are released.
+//   - InfoGuard: the *StreamInfo handed to Bind*/Unbind* is the CALLER's.  The chain passes the same pointer to every
+//     member, so an interceptor that edits it ("defaults" a field, sorts a list, appends to it) changes what the
+//     members bound after it — and the application — see.  A harness wraps every Bind*/Unbind* call in
+//     o.InfoGuard(call, info, func(){…}); a difference between a deep copy taken before and the struct after prints
+//     `INFO-MUTATED …`, which no model prints.
+//
 // Neighbours must be silent for the component's observables; a component chooses them per class in its generator
 // (never on its malformed-input classes unless the neighbour passes malformed input through unchanged).
 
@@ -54,7 +65,7 @@ import (
 
 // Amb is the parsed `amb` op.
 type Amb struct {
-	Before, After []string // neighbour kinds: stats, resp, rtpfb, hdr, dumps, dumpr, noop
+	Before, After []string // neighbour kinds: stats, resp, rtpfb, hdr, dumps, dumpr, noop, failclose
 	Chain         bool     // build through interceptor.NewChain even without neighbours
 	Reuse         bool     // the caller passes one long-lived Attributes map to every Read/Write
 	NilAttr       bool     // the transport below returns nil attributes from Read
@@ -142,6 +153,8 @@ func ambNeighbour(kind string) interceptor.Interceptor {
 		f, err = packetdump.NewReceiverInterceptor(packetdump.RTPWriter(io.Discard), packetdump.RTCPWriter(io.Discard))
 	case "noop":
 		return &interceptor.NoOp{}
+	case "failclose":
+		return &ambFailClose{}
 	default:
 		panic("unknown ambient neighbour " + kind)
 	}
@@ -153,6 +166,63 @@ func ambNeighbour(kind string) interceptor.Interceptor {
 		panic(err)
 	}
 	return ic
+}
+
+// ErrAmbClose is what the `failclose` neighbour's Close returns.
+var ErrAmbClose = errors.New("ambient neighbour: close failed")
+
+// ambFailClose is transparent for all traffic; its Close fails (every time it is called).
+type ambFailClose struct{ interceptor.NoOp }
+
+func (*ambFailClose) Close() error { return ErrAmbClose }
+
+// cloneInfo is a deep copy of the fields an interceptor could edit (the Attributes bag, which exists to be written
+// to, is left out).
+func cloneInfo(info *interceptor.StreamInfo) *interceptor.StreamInfo {
+	if info == nil {
+		return nil
+	}
+	c := *info
+	c.Attributes = nil
+	c.RTPHeaderExtensions = append([]interceptor.RTPHeaderExtension(nil), info.RTPHeaderExtensions...)
+	c.RTCPFeedback = append([]interceptor.RTCPFeedback(nil), info.RTCPFeedback...)
+	return &c
+}
+
+// infoDiff lists the fields in which `now` differs from the copy `was` ("" when equal).
+func infoDiff(was, now *interceptor.StreamInfo) string {
+	if was == nil || now == nil {
+		return ""
+	}
+	var d []string
+	add := func(name string, a, b any) {
+		if fmt.Sprint(a) != fmt.Sprint(b) {
+			d = append(d, fmt.Sprintf("%s:%v->%v", name, a, b))
+		}
+	}
+	add("ID", was.ID, now.ID)
+	add("SSRC", was.SSRC, now.SSRC)
+	add("SSRCRetransmission", was.SSRCRetransmission, now.SSRCRetransmission)
+	add("SSRCForwardErrorCorrection", was.SSRCForwardErrorCorrection, now.SSRCForwardErrorCorrection)
+	add("PayloadType", was.PayloadType, now.PayloadType)
+	add("PayloadTypeRetransmission", was.PayloadTypeRetransmission, now.PayloadTypeRetransmission)
+	add("PayloadTypeForwardErrorCorrection", was.PayloadTypeForwardErrorCorrection, now.PayloadTypeForwardErrorCorrection)
+	add("MimeType", was.MimeType, now.MimeType)
+	add("ClockRate", was.ClockRate, now.ClockRate)
+	add("Channels", was.Channels, now.Channels)
+	add("SDPFmtpLine", was.SDPFmtpLine, now.SDPFmtpLine)
+	add("RTPHeaderExtensions", fmt.Sprintf("%+v", was.RTPHeaderExtensions), fmt.Sprintf("%+v", now.RTPHeaderExtensions))
+	add("RTCPFeedback", fmt.Sprintf("%+v", was.RTCPFeedback), fmt.Sprintf("%+v", now.RTCPFeedback))
+	return strings.ReplaceAll(strings.Join(d, ";"), " ", "_")
+}
+
+// InfoGuard runs one Bind*/Unbind* call and reports an edit of the caller's StreamInfo.
+func (o *Out) InfoGuard(call string, info *interceptor.StreamInfo, f func()) {
+	was := cloneInfo(info)
+	f()
+	if d := infoDiff(was, info); d != "" && o != nil {
+		o.P("INFO-MUTATED call=%s ssrc=%d %s", call, was.SSRC, d)
+	}
 }
 
 // Wrap builds the interceptor under test into its ambient chain (identity when the case has no ambient).
